@@ -394,19 +394,26 @@ theorem addWrapperSig (m : Env) (outer : Env → Cbor) :
   rw [addAssertionUnwrap_eq]
   rfl
 
+/-- the body of `addSignature` when there is metadata -/
+def addSignatureMeta (e : Env) (sig : Cbor) (metadata : List Env) (outer : Env → Cbor) : Res Env :=
+  (metaEnvelope h sig metadata).bind fun m =>
+    (addAssertionUnwrap h (wrap h m) (signedKV h) (newLeaf h (outer (wrap h m)))).bind fun signature =>
+      addAssertionUnwrap h e (signedKV h) signature
+
+theorem addSignature_cons_aux (e : Env) (sig : Cbor) (a : Env) (metas : List Env)
+    (outer : Env → Cbor) :
+    addSignature h e sig (a :: metas) outer = addSignatureMeta h e sig (a :: metas) outer := by
+  unfold addSignature
+  simp only [List.isEmpty_cons, Bool.false_eq_true, if_false]
+  rfl
+
 theorem addSignature_cons (e : Env) (sig : Cbor) (a : Env) (metas : List Env) (outer : Env → Cbor) :
     addSignature h e sig (a :: metas) outer =
       (metaEnvelope h sig (a :: metas)).bind fun m =>
         addAssertionUnwrap h e (signedKV h) (signedWrapper h m outer) := by
-  show (metaEnvelope h sig (a :: metas)).bind _ = _
-  cases metaEnvelope h sig (a :: metas) with
-  | ok m =>
-    show (addAssertionUnwrap h (wrap h m) (signedKV h) (newLeaf h (outer (wrap h m)))).bind
-      (fun signature => addAssertionUnwrap h e (signedKV h) signature) =
-        addAssertionUnwrap h e (signedKV h) (signedWrapper h m outer)
-    rw [addWrapperSig]; rfl
-  | err _ => rfl
-  | panic _ => rfl
+  rw [addSignature_cons_aux]
+  unfold addSignatureMeta
+  congr 1
 
 /-- every successful `addSignature` is `add_assertion('signed', o)` for the object `o`
 it built: the signature leaf, or the signed wrapper of the metadata envelope -/
